@@ -431,6 +431,8 @@ def native_replay(prop, unit, failure, cfg, rundir):
         rps = [rps]
     # a replay entry may be restricted to the obligations it can reproduce ('only_for': substrings of the obligation text)
     text = (failure.get("property") or "") + " " + (failure.get("description") or "")
+    # 'kf_region': the entry reproduces a KNOWN finding and is meaningful only in the run restricted to that finding's region
+    rps = [r for r in rps if not r.get("kf_region") or unit.get("_kf_only")]
     rp = next((r for r in rps if not r.get("only_for") or any(k in text for k in r["only_for"])), None)
     if rp is None:
         return None, "the unit's native replay drivers cover other obligations, not this one"
